@@ -158,6 +158,9 @@ def monotonic_factorization(arr: ArrayType1D) -> Tuple[int, np.ndarray, pd.Index
     arr_list = _val_to_numpy(arr, as_list=True)
 
     total_len = len(arr)
+    if any(chunk.dtype.kind not in "iufbmM" for chunk in arr_list):
+        # strings / objects cannot go through the numba kernel: no sorted prefix
+        return 0, np.empty(total_len, dtype=np.uint32), pd.Index([])
     cutoff, codes, labels = _monotonic_factorization(arr_list, total_len)
     # Convert labels to pd.Index with proper dtype handling
     if pd_type.kind == "M":
